@@ -164,6 +164,21 @@ pub fn data(kind: &str, n: usize, r: &mut StdRng) -> Vec<u8> {
             pool.swap(i, j);
         }
         v = pool;
+    } else if let Some(run) = kind.strip_prefix("nearfat") {
+        // `run` random bytes in 144..=255 (9 bits each in the fixed code), then a copy of the last
+        // 258 bytes, over and over: about 258 / (run + 258) of the input is matched
+        let run: usize = run.parse().unwrap_or(22_000).max(300);
+        while v.len() < n {
+            let jitter = r.gen_range(0..run / 20 + 1);
+            for _ in 0..(run + jitter) {
+                v.push(r.gen_range(144..=255));
+            }
+            let l = v.len();
+            for i in 0..258 {
+                let b = v[l - 258 + i];
+                v.push(b);
+            }
+        }
     } else if kind == "deep15" {
         // Per segment of 24..31 K: ~160 common byte values, a Fibonacci ladder of seven rarer
         // values and 8..24 values that occur once.  An unrestricted Huffman code would give the
